@@ -177,7 +177,7 @@ func (Segment).Check
     flags noframe only_check only_derive
     requires[check_ok] absDef(fsContent[s.Log])
     assigns fPath, gDone
-    ensures gDone["headcheck"] == old(gDone)["headcheck"] + ite(err == nil, 1, 0) && gDone["migrate"] == old(gDone)["migrate"]
+    ensures gDone["headcheck"] == old(gDone)["headcheck"] + ite(err == nil, 1, 0) && gDone["migrate"] == old(gDone)["migrate"] && gDone["recover"] == old(gDone)["recover"]
     ensures[check_damaged] !tailClean(old(fsContent)[s.Log]) ==> err != nil
     // the three outcomes after a complete parse: no index file: accepted; unreadable index: its error;
     // readable index: accepted iff equal to the derived index
@@ -215,6 +215,7 @@ func (Segment).Recover
     assert[crash_tempfresh] !fsExists[s.Log + ".recover"] at call message.OpenWriter 1
     assigns fPath, fsDirty, fsExists, fsContent, dirDirty, index.Writer.pos, gDone
     ensures gDone["headcheck"] == old(gDone)["headcheck"] + ite(err == nil, 1, 0) && gDone["migrate"] == old(gDone)["migrate"]
+    ensures gDone["recover"] == old(gDone)["recover"] + ite(err == nil, 1, 0)
     loop 1
       invariant[sync] wrOK(restore)
       invariant[recover_state] !corrupted && restore != nil && restore.Path == s.Log + ".recover"
@@ -241,7 +242,7 @@ func (Segment).Migrate
     assert[version_inplace] arg0 == migratedLog.Path && arg1 == s.Log && migratedLog.Path == s.Log + ".migrate" at call os.Rename 1
     assert[crash_tempfresh] !fsExists[s.Log + ".migrate"] at call message.OpenWriter 1
     assigns fPath, fsDirty, fsExists, fsContent, dirDirty, index.Writer.pos, gDone
-    ensures gDone["migrate"] == old(gDone)["migrate"] + ite(err == nil, 1, 0) && gDone["headcheck"] == old(gDone)["headcheck"]
+    ensures gDone["migrate"] == old(gDone)["migrate"] + ite(err == nil, 1, 0) && gDone["headcheck"] == old(gDone)["headcheck"] && gDone["recover"] == old(gDone)["recover"]
     ensures[sync_dir] err == nil && s.AutoSync && fsContent[s.Log] != old(fsContent[s.Log]) ==> !dirDirty[s.Dir]
     loop 1
       invariant[sync] wrOK(migratedLog)
